@@ -96,3 +96,157 @@ B("c02-benign-early-return", "C02", "stats.go",
 		return
 	}
 	g.cachedGauge.ReportGauge(g.value())""")
+
+# ---------------------------------------------------------------- C01 counter
+M("c01-revert-fix-load-store", "C01", "stats.go",
+  """	for {
+		// n.b. prev must be read before curr so that, with non-negative
+		//      increments, the delta handed to concurrent reporters is never
+		//      negative; the CAS makes "subtract prev, advance prev" one step.
+		prev := atomic.LoadInt64(&c.prev)
+		curr := atomic.LoadInt64(&c.curr)
+		if prev == curr {
+			return 0
+		}
+		if atomic.CompareAndSwapInt64(&c.prev, prev, curr) {
+			return curr - prev
+		}
+	}
+""", """	curr := atomic.LoadInt64(&c.curr)
+
+	prev := atomic.LoadInt64(&c.prev)
+	if prev == curr {
+		return 0
+	}
+	atomic.StoreInt64(&c.prev, curr)
+	return curr - prev
+""", expect="O2 delta-rmw")
+M("c01-curr-before-prev", "C01", "stats.go",
+  """		prev := atomic.LoadInt64(&c.prev)
+		curr := atomic.LoadInt64(&c.curr)
+""", """		curr := atomic.LoadInt64(&c.curr)
+		prev := atomic.LoadInt64(&c.prev)
+""", expect="O2 delta-rmw")
+M("c01-swap", "C01", "stats.go",
+  """		prev := atomic.LoadInt64(&c.prev)
+		curr := atomic.LoadInt64(&c.curr)
+		if prev == curr {
+			return 0
+		}
+		if atomic.CompareAndSwapInt64(&c.prev, prev, curr) {
+			return curr - prev
+		}
+""", """		curr := atomic.LoadInt64(&c.curr)
+		prev := atomic.SwapInt64(&c.prev, curr)
+		return curr - prev
+""", expect="O2 delta-rmw")
+M("c01-cas-ignored", "C01", "stats.go",
+  """		if atomic.CompareAndSwapInt64(&c.prev, prev, curr) {
+			return curr - prev
+		}
+""", """		atomic.CompareAndSwapInt64(&c.prev, prev, curr)
+		return curr - prev
+""", expect="O2 delta-rmw")
+M("c01-prev-not-advanced", "C01", "stats.go",
+  """		if atomic.CompareAndSwapInt64(&c.prev, prev, curr) {
+			return curr - prev
+		}
+""", """		return curr - prev
+""", expect="O2 delta-rmw")
+M("c01-zero-not-suppressed", "C01", "stats.go",
+  """	delta := c.value()
+	if delta == 0 {
+		return
+	}
+
+	c.cachedCount.ReportCount(delta)""", """	delta := c.value()
+	c.cachedCount.ReportCount(delta)""", expect="O3 delivery")
+M("c01-double-delivery", "C01", "stats.go",
+  """	r.ReportCounter(name, tags, delta)
+""", """	r.ReportCounter(name, tags, delta)
+	r.ReportCounter(name, tags, delta)
+""", expect="O3 delivery")
+M("c01-delta-twice", "C01", "stats.go",
+  """	delta := c.value()
+	if delta == 0 {
+		return
+	}
+
+	r.ReportCounter(name, tags, delta)""", """	delta := c.value()
+	if delta == 0 {
+		return
+	}
+	delta = c.value()
+	r.ReportCounter(name, tags, delta)""", expect="O3")
+M("c01-constant-samples", "C01", "stats.go",
+  """				durationLowerBound(h.buckets, i),
+				h.buckets[i].durationUpperBound,
+				samples,
+			)""", """				durationLowerBound(h.buckets, i),
+				h.buckets[i].durationUpperBound,
+				1,
+			)""", expect="O3")
+M("c01-duration-arm-dropped", "C01", "stats.go",
+  """		case valueHistogramType:
+			h.samples[i].cachedBucket.ReportSamples(samples)
+		case durationHistogramType:
+			h.samples[i].cachedBucket.ReportSamples(samples)
+		}""", """		case valueHistogramType:
+			h.samples[i].cachedBucket.ReportSamples(samples)
+		}""", expect="O3 delivery")
+M("c01-inc-plain", "C01", "stats.go",
+  """	atomic.AddInt64(&c.curr, v)""", """	c.curr += v""", expect="O1 atomic-only")
+M("c01-inc-abs", "C01", "stats.go",
+  """	atomic.AddInt64(&c.curr, v)""", """	if v > 0 {
+		atomic.AddInt64(&c.curr, v)
+	}""", expect="O4 inc")
+M("c01-no-slice-append", "C01", "scope.go",
+  """	s.countersSlice = append(s.countersSlice, c)
+""", "", expect="O6 slice-sibling")
+M("c01-pass-subslice", "C01", "scope.go",
+  """	for _, counter := range s.countersSlice {""", """	for _, counter := range s.countersSlice[:len(s.countersSlice)-1] {""", expect="O7 pass-coverage")
+M("c01-pass-skip-histograms", "C01", "scope.go",
+  """	for name, histogram := range s.histograms {
+		histogram.report(s.fullyQualifiedName(name), s.tags, r)
+	}""", """	for name, histogram := range s.histograms {
+		if len(name) > 64 {
+			continue
+		}
+		histogram.report(s.fullyQualifiedName(name), s.tags, r)
+	}""", expect="O7 pass-coverage")
+B("c01-benign-merged-arms", "C01", "stats.go",
+  """		switch h.htype {
+		case valueHistogramType:
+			h.samples[i].cachedBucket.ReportSamples(samples)
+		case durationHistogramType:
+			h.samples[i].cachedBucket.ReportSamples(samples)
+		}""", """		h.samples[i].cachedBucket.ReportSamples(samples)""")
+B("c01-benign-if-nonzero", "C01", "stats.go",
+  """	delta := c.value()
+	if delta == 0 {
+		return
+	}
+
+	c.cachedCount.ReportCount(delta)""", """	if delta := c.value(); delta != 0 {
+		c.cachedCount.ReportCount(delta)
+	}""")
+B("c01-benign-cas-negated", "C01", "stats.go",
+  """		if atomic.CompareAndSwapInt64(&c.prev, prev, curr) {
+			return curr - prev
+		}
+""", """		if !atomic.CompareAndSwapInt64(&c.prev, prev, curr) {
+			continue
+		}
+		return curr - prev
+""")
+B("c01-benign-if-else-chain", "C01", "stats.go",
+  """		switch h.htype {
+		case valueHistogramType:
+			h.samples[i].cachedBucket.ReportSamples(samples)
+		case durationHistogramType:
+			h.samples[i].cachedBucket.ReportSamples(samples)
+		}""", """		if h.htype == valueHistogramType {
+			h.samples[i].cachedBucket.ReportSamples(samples)
+		} else if h.htype == durationHistogramType {
+			h.samples[i].cachedBucket.ReportSamples(samples)
+		}""")
